@@ -13,7 +13,7 @@
   (object identity under delete).
 -/
 import Hv.Conc.LinearizeLemmas
-import Hv.Conc.Stale
+import Hv.Conc.StaleLemmas
 import Hv.Props.C15
 import Hv.Basic.Verdict
 
@@ -157,12 +157,56 @@ theorem lost_update_read_first (gc : Guard.Cfg) (ris : Bool) :
       (fun s => (s.val, s.log.length)) = some (1, 2) := by
   cases gc with | mk r => cases r <;> cases ris <;> decide
 
+/-- the conditional Set (`Overwrite = false`: write only when the key is absent, 0 = absent; call `t` writes `t`):
+    both calls test before the guard, both see "absent", both write and both answer "written" -/
+def setIfAbsent : Nat → Int → Int := fun t v => if v = 0 then (t : Int) else v
+
+theorem set_if_absent_both_write (gc : Guard.Cfg) (ris : Bool) :
+    (Lin.run { guard := gc, releaseInSave := ris, shape := .readBeforeAcquire } setIfAbsent (Lin.init 0) witnessReadFirst).map
+      (fun s => (s.val, s.log.map (fun e => (e.tid, e.resp)), replay setIfAbsent 0 s.log)) = some (2, [(1, 1), (2, 2)], none) := by
+  cases gc with | mk r => cases r <;> cases ris <;> decide
+
 def witnessWriteLate : List Lin.Act := ths [1, 1, 1, 2, 2, 2, 1, 2]
 
 theorem lost_update_write_late (gc : Guard.Cfg) (ris : Bool) :
     (Lin.run { guard := gc, releaseInSave := ris, shape := .writeAfterRelease } inc1 (Lin.init 0) witnessWriteLate).map
       (fun s => (s.val, s.log.length)) = some (1, 2) := by
   cases gc with | mk r => cases r <;> cases ris <;> decide
+
+theorem perm_pair' {α : Type} (l : List α) (a b : α) (h : l.Perm [a, b]) : l = [a, b] ∨ l = [b, a] := by
+  have hl := h.length_eq
+  match l, hl with
+  | [x, y], _ =>
+    have hx : x ∈ [a, b] := h.subset (by simp)
+    have hy : y ∈ [a, b] := h.subset (by simp)
+    have ha : a ∈ [x, y] := h.symm.subset (by simp)
+    have hb : b ∈ [x, y] := h.symm.subset (by simp)
+    simp at hx hy ha hb
+    rcases hx with rfl | rfl <;> rcases hy with rfl | rfl
+    · rcases hb with rfl | rfl <;> simp
+    · simp
+    · simp
+    · rcases ha with rfl | rfl <;> simp
+
+/-- the response is read back after `Save` has released the guard (immediate-write mode): A writes 1 and releases,
+    B writes 2, then both read their response from the object: 2 and 2 -/
+def witnessRespLate : List Lin.Act := ths [1, 1, 1, 1, 2, 2, 2, 2, 1, 2, 1, 2]
+
+theorem stale_response_after_save (gc : Guard.Cfg) :
+    (Lin.run { guard := gc, releaseInSave := true, shape := .respAfterSave } inc1 (Lin.init 0) witnessRespLate).map
+      (fun s => (s.val, s.log.map (·.resp))) = some (2, [2, 2]) := by
+  cases gc with | mk r => cases r <;> decide
+
+/-- no serial order of two increments from 0 answers 2 twice -/
+theorem no_order_answers_twice (l : List Entry) (h : l.map (·.resp) = [2, 2]) (order : List Entry) (hp : order.Perm l) :
+    replay inc1 0 order ≠ some 2 := by
+  match l, h with
+  | [a, b], h =>
+    simp at h
+    rcases perm_pair' order a b hp with rfl | rfl <;> simp [replay, inc1, h.1, h.2]
+  | [], h => simp at h
+  | [_], h => simp at h
+  | _ :: _ :: _ :: _, h => simp at h
 
 /-- a value that is not "initial + number of calls" cannot be explained by any serial order -/
 theorem not_linearizable_of_count (s : Lin.St) (n : Nat) (v : Int) (hl : s.log.length = n) (hv : s.val = v)
@@ -219,6 +263,11 @@ theorem perm_pair {α : Type} (l : List α) (a b : α) (h : l.Perm [a, b]) : l =
     · simp
     · rcases ha with rfl | rfl <;> simp
 
+/-- … and no serial order explains two "written" answers: whoever comes second finds the key present -/
+theorem set_if_absent_no_order (e1 e2 : Entry) (h1 : e1.tid = 1 ∧ e1.resp = 1) (h2 : e2.tid = 2 ∧ e2.resp = 2)
+    (order : List Entry) (hp : order.Perm [e1, e2]) : replay setIfAbsent 0 order = none := by
+  rcases perm_pair order e1 e2 hp with rfl | rfl <;> simp [replay, setIfAbsent, h1.1, h1.2, h2.1, h2.2]
+
 /-- Neither serial order explains the acknowledged delete, the response 6 and the final value 6. -/
 theorem stale_object_not_linearizable (s : Stale.St)
     (h : Stale.run { recheck := false } false staleKinds (Stale.init 5) witnessStale = some s) :
@@ -245,10 +294,34 @@ theorem refutes_stale (c : Cfg) (hc : c.stale = { recheck := false }) : ¬ Holds
     · exact hw.2.2.2
     · exact hw.2.2.1
 
+/-- With the re-check under the guard (an operation whose object is no longer the key's object starts
+    over), every reachable state's completion log replays on the register Spec to exactly what a client
+    reads — for every schedule, any mix of increments and deletes, persisted or not. -/
+theorem linearizable_repaired (persisted : Bool) (kinds : Nat → Stale.Kind) (v0 : Int) (sched : List Nat) (s : Stale.St)
+    (h : Stale.run Stale.repaired persisted kinds (Stale.init v0) sched = some s) : Stale.Linearizable kinds v0 s := by
+  have hi : Stale.Inv kinds v0 s := LTS.inv_run (Stale.step Stale.repaired persisted kinds) (Stale.Inv kinds v0)
+    (fun s a s' hi hs => Stale.inv_step kinds v0 persisted s a s' hi hs) (Stale.init v0) sched s (Stale.inv_init kinds v0) h
+  exact ⟨s.log, List.Perm.refl _, hi.replay⟩
+
+/-- Non-vacuity: the schedule of the stale-object witness under the repaired protocol — the increment
+    notices that its object is gone, starts over on a fresh object and returns 1. -/
+example : (Stale.run Stale.repaired false staleKinds (Stale.init 5) [1, 2, 2, 2, 2, 1, 1, 1, 1, 1, 1]).map
+    (fun s => (s.log, Stale.final s)) = some ([⟨2, .deleted⟩, ⟨1, .val 1⟩], some 1) := by decide
+
+/-- C09 for the repaired facts: both write modes, any number of calls and guard clients, objects
+    replaced under deletes. -/
+theorem holds_repaired (rel : Bool) :
+    Holds { guard := noReset, releasesWhenImmediate := rel, shape := .guarded, stale := Stale.repaired } := by
+  constructor
+  · intro ris _ op v0 sched s h
+    exact (exclusive_with_double_release ris op v0 sched s h).1
+  · intro persisted kinds v0 sched s h _
+    exact linearizable_repaired persisted kinds v0 sched s h
+
 /-! ### decision over the extracted facts -/
 
 inductive ShapeFact where
-  | guarded | readBeforeAcquire | writeAfterRelease | unknown
+  | guarded | readBeforeAcquire | writeAfterRelease | respAfterSave | unknown
   deriving DecidableEq, Repr
 
 structure Facts where
@@ -257,24 +330,30 @@ structure Facts where
   bodyShape : ShapeFact
   createSingleFlight : Tri
   rechecksObjectUnderGuard : Tri
+  /-- gateway `Set`: the existence tests behind `Overwrite = false` / `CreateIfNotExist = false` are (also) made
+      after `StartTreasureGuard`; `no`: the decision to write is taken from a test made before the guard, i.e. the
+      conditional Sets are bodies of shape `readBeforeAcquire` -/
+  setTestsExistenceUnderGuard : Tri
   deriving Repr
 
 def shapeOf : ShapeFact → Shape
   | .readBeforeAcquire => .readBeforeAcquire
   | .writeAfterRelease => .writeAfterRelease
+  | .respAfterSave => .respAfterSave
   | _ => .guarded
 
 def cfgOf (f : Facts) : Cfg :=
   { guard := { resetsIdOnEmpty := f.resetsIdOnEmpty.isYes },
     releasesWhenImmediate := !f.releasesGuardWhenImmediate.isNo,
-    shape := shapeOf f.bodyShape,
+    shape := if f.setTestsExistenceUnderGuard.isNo then .readBeforeAcquire else shapeOf f.bodyShape,
     stale := { recheck := f.rechecksObjectUnderGuard.isYes } }
 
 def findings (c : Cfg) : List String :=
   (match c.shape with
    | .guarded => if c.guard.resetsIdOnEmpty && c.releasesWhenImmediate then ["C09-lost-update-guard-id-reuse"] else []
    | .readBeforeAcquire => ["C09-read-outside-guard"]
-   | .writeAfterRelease => ["C09-write-outside-guard"]) ++
+   | .writeAfterRelease => ["C09-write-outside-guard"]
+   | .respAfterSave => if c.releasesWhenImmediate then ["C09-response-read-after-save"] else []) ++
   (if c.stale.recheck then [] else ["C09-delete-increment-stale-object"])
 
 def classify (f : Facts) : Verdict :=
@@ -283,8 +362,10 @@ def classify (f : Facts) : Verdict :=
   if f.bodyShape = .unknown then .undetermined "bodies.shape" else
   if f.createSingleFlight ≠ .yes then .undetermined "create.singleFlight: no theorem without the in-flight tracker" else
   if f.rechecksObjectUnderGuard = .unknown then .undetermined "increment.rechecksObjectUnderGuard" else
+  if f.setTestsExistenceUnderGuard = .unknown then .undetermined "set.testsExistenceUnderGuard" else
   match findings (cfgOf f) with
-  | [] => .undetermined "no theorem yet covers the object re-check variant / ID reuse without the in-save release"
+  | [] => if f.resetsIdOnEmpty = .no ∧ (cfgOf f).shape = .guarded then .holds
+          else .undetermined "no theorem covers this combination (guard ID reuse without the in-save release / response read after Save without it)"
   | fs => .violated fs
 
 /-- The `_partial` statement: with guard IDs never reused and well-formed bodies, every history
@@ -320,6 +401,20 @@ theorem refutes_of_findings (c : Cfg) (h : findings c ≠ []) : ¬ Holds c := by
     | writeAfterRelease =>
       exact refutes_lin c false (fun h => by simp at h) witnessWriteLate 1 2
         (by simp only [Cfg.lin, hsh]; exact lost_update_write_late _ _) (by decide)
+    | respAfterSave =>
+      have hb : c.releasesWhenImmediate = true := by
+        cases hx : c.releasesWhenImmediate <;> simp [findings, hsh, hst', hx] at h ⊢
+      intro hh
+      have hw := stale_response_after_save c.guard
+      have hl : c.lin true = { guard := c.guard, releaseInSave := true, shape := .respAfterSave } := by simp [Cfg.lin, hsh]
+      cases hr : Lin.run (c.lin true) inc1 (Lin.init 0) witnessRespLate with
+      | none => rw [hl] at hr; rw [hr] at hw; simp at hw
+      | some s =>
+        have hr' := hr
+        rw [hl] at hr'; rw [hr'] at hw; simp at hw
+        obtain ⟨order, hp, _, hrep⟩ := (hh.lin true (fun _ => hb) inc1 0 witnessRespLate s hr).order
+        rw [hw.1] at hrep
+        exact no_order_answers_twice s.log hw.2 order hp hrep
 
 theorem classify_sound (f : Facts) : (classify f).Sound (Holds (cfgOf f)) (HoldsPartial (cfgOf f)) := by
   unfold classify
@@ -328,8 +423,25 @@ theorem classify_sound (f : Facts) : (classify f).Sound (Holds (cfgOf f)) (Holds
   split; · trivial
   split; · trivial
   split; · trivial
+  split; · trivial
   split
-  · trivial
+  · rename_i hf
+    split
+    · rename_i hres0
+      rename_i hu1 hu2 hu3 hu4 hu5 hu6
+      obtain ⟨hres, hsh⟩ := hres0
+      -- no findings: guarded bodies, re-check present; IDs never reused
+      have hre : (cfgOf f).stale.recheck = true := by
+        cases hr : (cfgOf f).stale.recheck <;> simp [findings, hr] at hf ⊢
+      have hc : cfgOf f = { guard := noReset, releasesWhenImmediate := (cfgOf f).releasesWhenImmediate, shape := .guarded,
+                            stale := Stale.repaired } := by
+        have hg : (cfgOf f).guard = noReset := by simp [cfgOf, noReset, hres, Tri.isYes]
+        have hst : (cfgOf f).stale = Stale.repaired := by
+          cases hx : (cfgOf f).stale; simp [hx] at hre; simp [Stale.repaired, hre]
+        cases hcc : cfgOf f; simp [hcc] at hsh hg hst; simp [hsh, hg, hst]
+      show Holds (cfgOf f)
+      rw [hc]; exact holds_repaired _
+    · trivial
   · rename_i fs hne
     exact ⟨refutes_of_findings _ (fun he => hne he), holds_partial _⟩
 
